@@ -12,8 +12,9 @@
 // the bond denom (raw, offset, with offset) are logged as ndjson for
 // spec/trace/TraceSuperfluid.tla.
 //
-// Validator slashing / jailing, governance removal of superfluid assets and the
-// migration / unpool / convert-and-stake messages are not in the alphabet.
+// Validators other than the block signer are jailed (liveness fault, no slash) and released.  Validator slashing,
+// governance removal of superfluid assets and the migration / unpool / convert-and-stake messages are not in
+// the alphabet.
 package superfluid
 
 import (
@@ -746,6 +747,29 @@ func (w *world) exec(c call) outcome {
 		return fromApp(w.Try(func(ctx sdk.Context) error {
 			return banktestutil.FundModuleAccount(ctx, w.App.BankKeeper, "fee_collector", sdk.NewCoins(sdk.NewInt64Coin(w.bond, c.Amt)))
 		}))
+	case "jail", "unjail":
+		// the validator is jailed (a liveness fault: no slash) / released.  Nothing the property speaks of moves:
+		// locks delegated through it stay delegated, their worth keeps being staked with it
+		return fromApp(w.Try(func(ctx sdk.Context) error {
+			v, err := w.App.StakingKeeper.GetValidator(ctx, w.val(c.V))
+			if err != nil {
+				return err
+			}
+			cons, err := v.GetConsAddr()
+			if err != nil {
+				return err
+			}
+			if c.A == "jail" {
+				if v.IsJailed() {
+					return fmt.Errorf("already jailed")
+				}
+				return w.App.StakingKeeper.Jail(ctx, cons)
+			}
+			if !v.IsJailed() {
+				return fmt.Errorf("not jailed")
+			}
+			return w.App.StakingKeeper.Unjail(ctx, cons)
+		}))
 	case "block":
 		return w.block(c.X)
 	}
@@ -1058,7 +1082,10 @@ func (r *recorder) nextCall() call {
 			c.X = 150
 		}
 		return c
-	case x < 90: // fees arrive
+	case x < 90: // fees arrive; or a validator other than the block signer is jailed (no slash) / released
+		if len(r.w.vals) > 1 && rng.Intn(3) == 0 {
+			return call{A: []string{"jail", "jail", "unjail"}[rng.Intn(3)], V: r.w.vals[1+rng.Intn(len(r.w.vals)-1)]}
+		}
 		return call{A: "fund", Amt: 1 + rng.Int63n(5_000_000)}
 	case x < 94: // a block inside the epoch: one second, or right onto the next marker / lock end
 		c := call{A: "block", X: 1 + rng.Int63n(5)}
@@ -1123,6 +1150,7 @@ func TestRecord(t *testing.T) {
 			"unbond": w.unbond, "epochdur": w.epochDur, "risk": apphelp.BigD(w.risk), "unit": units, "seed": seed, "h": h, "config": cfg})
 		epochs := 0
 		zeroed := map[string]bool{}
+		jailed := map[string]bool{}
 		crashAt := -1
 		if h%2 == 1 {
 			crashAt = nops/6 + rng.Intn(nops/2+1)
@@ -1153,6 +1181,15 @@ func TestRecord(t *testing.T) {
 					counts["sfundelunbond:split"]++
 				case (c.A == "lock" || c.A == "add") && r.connected(c.ID|o.RID):
 					counts["topup:delegated"]++
+					for _, cn := range r.sf.Conn {
+						if cn.ID == c.ID|o.RID && jailed[cn.V] {
+							counts["topup:delegated-to-jailed"]++
+						}
+					}
+				case c.A == "jail":
+					jailed[c.V] = true
+				case c.A == "unjail":
+					jailed[c.V] = false
 				case c.A == "begin" && o.RID != c.ID:
 					counts["begin:split"]++
 				}
